@@ -771,6 +771,11 @@ fn ntt120_vec_znx_big_normalize_cross_assign<O, R, A, BE>(
                         nfc_extract_digit_assignmul::<O>(res_acc_left, scale, res_slice, a_carry);
                     }
                     BE::nfc_middle_step_assign(res_base2k, 0, res_slice, res_carry);
+                    // `res_carry` now holds the carry of `res` itself, which keeps its sign under
+                    // `res -= ...`; it is applied below through `O`, so pre-negate it for SubOp.
+                    if O::SUB {
+                        res_carry.iter_mut().for_each(|c| *c = c.wrapping_neg());
+                    }
                     nfc_add_assign(res_carry, a_carry);
                     break 'outer;
                 }
